@@ -99,6 +99,12 @@ func credUnprivExec(c *Ctx, op string) {
 	}
 	defer rmrf(top)
 	os.Chmod(top, 0755)
+	// (the binary is run by an unprivileged user below: wherever the harness keeps it may lie under a directory that user
+	// cannot traverse — /root/… in a snapshot — so it is run from a copy in a world-searchable place)
+	if b, e := os.ReadFile(bin); e == nil && os.WriteFile(filepath.Join(top, "rio"), b, 0755) == nil {
+		bin = filepath.Join(top, "rio")
+		os.Chmod(bin, 0755)
+	}
 	src, wh, area := filepath.Join(top, "src"), filepath.Join(top, "wh"), filepath.Join(top, "area")
 	os.MkdirAll(filepath.Join(src, "d"), 0755)
 	os.WriteFile(filepath.Join(src, "d", "f"), []byte("x"), 0644)
